@@ -6,8 +6,11 @@ package main
 // promptly in both cases, and in (b) the client must be told DeadlineExceeded.
 
 import (
+	"context"
 	"fmt"
+	"io"
 	"net/http"
+	"os"
 	"net/http/httptest"
 	"strings"
 	"sync/atomic"
@@ -18,6 +21,8 @@ import (
 	vc "github.com/renbou/grpcbridge/internal/zzverif/vcommon"
 	"github.com/renbou/grpcbridge/internal/zzverif/vfake"
 	"github.com/renbou/grpcbridge/webbridge"
+	"google.golang.org/grpc/codes"
+	"google.golang.org/grpc/status"
 )
 
 type activeHandler struct {
@@ -42,11 +47,19 @@ func (a *activeHandler) waitIdle(d time.Duration) bool {
 	return false
 }
 
-// entry: 0 transcoded WebSocket, 1 gRPC-WebSocket ; how: 0 client hangs up, 1 deadline ; sent: messages the client sends
+// entry: 0 transcoded WebSocket, 1 gRPC-WebSocket, 2 gRPC-Web over HTTP with an unfinished request body ;
+// how: 0 client hangs up, 1 deadline, 2 the target ends the call with PermissionDenied ; sent: messages the client sends
 // before going idle (0 or 1)
 func webIdleCase(entry, how, sent int, cs, ss bool) vc.Val {
 	conn := vfake.NewConn() // a silent target: no scripted response at all
+	if how == 2 {
+		// ... or one that ends the call with a status of its own, once it has the client's messages, while the client is idle
+		conn.Script = []vfake.RespItem{{NeedReqs: sent, Kind: vfake.KErr, Status: status.New(codes.PermissionDenied, "target says no")}}
+	}
 	router := vfake.NewFlowRouter(conn, cs, ss)
+	if entry == 2 {
+		return grpcWebIdle(conn, router, how, sent)
+	}
 	var h http.Handler
 	var protos []string
 	path := "/x"
@@ -92,10 +105,14 @@ func webIdleCase(entry, how, sent int, cs, ss bool) vc.Val {
 	if how == 0 {
 		ws.UnderlyingConn().Close() // the client disappears without a word
 	} else {
+		// how 1: wait for the deadline to strike ; how 2: the target has already ended the call
 		ws.SetReadDeadline(time.Now().Add(2 * time.Second))
 		for {
 			_, data, err := ws.ReadMessage()
 			if err != nil {
+				if os.Getenv("VERIF_DEBUG") != "" {
+					fmt.Fprintf(os.Stderr, "web_idle entry=%d how=%d sent=%d: read ended with %v\n", entry, how, sent, err)
+				}
 				if ce, ok := err.(*websocket.CloseError); ok && code == 0 {
 					code = ce.Code // (a status trailer seen before the close frame is what counts)
 				}
@@ -118,6 +135,56 @@ func webIdleCase(entry, how, sent int, cs, ss bool) vc.Val {
 	return vc.L{r, code}
 }
 
+// grpcWebIdle: gRPC-Web over plain HTTP with a request body that stays open (the client has sent `sent` messages and then
+// nothing, without finishing the body) - the handler is driven directly with a blocking body reader
+func grpcWebIdle(conn *vfake.Conn, router *vfake.Router, how, sent int) vc.Val {
+	b := webbridge.NewGRPCWebBridge(router, webbridge.GRPCWebBridgeOpts{Logger: bridgelog.Discard()})
+	pr, pw := io.Pipe()
+	ctx, cancel := context.WithCancel(context.Background())
+	defer cancel()
+	req := httptest.NewRequest("POST", "/pkg.Svc/Method", pr).WithContext(ctx)
+	req.Header.Set("Content-Type", "application/grpc-web+proto")
+	if how == 1 {
+		req.Header.Set("Grpc-Timeout", "300m")
+	}
+	rec := httptest.NewRecorder()
+	done := make(chan struct{})
+	go func() { b.ServeHTTP(rec, req); close(done) }()
+	go func() {
+		for i := 0; i < sent; i++ {
+			p := vfake.Flow("m")
+			pw.Write(append([]byte{0, 0, 0, 0, byte(len(p))}, p...))
+		}
+	}()
+	time.Sleep(30 * time.Millisecond)
+	if how == 0 {
+		cancel() // net/http cancels the request context when the client goes away
+	}
+	stuck := 0
+	select {
+	case <-done:
+	case <-time.After(1500 * time.Millisecond):
+		stuck = 1
+	}
+	pw.CloseWithError(io.ErrClosedPipe) // release whatever still reads the body
+	conn.Release()
+	code := 0
+	if stuck == 0 {
+		data := rec.Body.Bytes()
+		for len(data) >= 5 {
+			n := int(data[1])<<24 | int(data[2])<<16 | int(data[3])<<8 | int(data[4])
+			if len(data) < 5+n {
+				break
+			}
+			if s := grpcStatusOf(data[:5+n]); s >= 0 {
+				code = 4000 + s
+			}
+			data = data[5+n:]
+		}
+	}
+	return vc.L{stuck, code}
+}
+
 func grpcStatusOf(frame []byte) int {
 	if len(frame) < 5 || frame[0]&0x80 == 0 {
 		return -1
@@ -135,11 +202,14 @@ func grpcStatusOf(frame []byte) int {
 func webIdlePart(w *vc.Writer, r *vc.Rand) {
 	n := vc.Scale(3, 40)
 	for rep := 0; rep < n; rep++ {
-		for entry := 0; entry < 2; entry++ {
-			for how := 0; how < 2; how++ {
+		for entry := 0; entry < 3; entry++ {
+			for how := 0; how < 3; how++ {
 				for sent := 0; sent < 2; sent++ {
 					for _, kind := range [][2]bool{{true, true}, {true, false}, {false, true}, {false, false}} {
-						res := webIdleCase(entry, how, sent, kind[0], kind[1])
+						if how == 2 && !kind[0] && sent == 0 {
+						continue // a unary-request call contacts the target only once the request has arrived
+					}
+					res := webIdleCase(entry, how, sent, kind[0], kind[1])
 						w.Case(vc.L{entry, how, sent, kind[0], kind[1]}, res, true)
 					}
 				}
